@@ -299,6 +299,7 @@ Definition announced (P : params) (s : gstate) (V : Z) : Prop :=
 Section Announce.
   Variable P : params.
   Variable pay : Z -> Z.
+  Variable fetch : gstate -> Z -> option cqc.
 
   (* headroom for the certificate a node would send: its view number can still be incremented *)
   Definition cert_headroom (s : gstate) (k : Z) : Prop :=
@@ -344,11 +345,11 @@ Section Announce.
 
   (* announced views are reached by everybody within one round *)
   Theorem announced_catch_up s V k :
-    announced P s V -> honestb P k = true -> n_alive (g_node (sync_round P pay s) k) = true ->
-    V <= r_view (n_live (g_node (sync_round P pay s) k)).
+    announced P s V -> honestb P k = true -> n_alive (g_node (sync_round P pay fetch s) k) = true ->
+    V <= r_view (n_live (g_node (sync_round P pay fetch s) k)).
   Proof.
     intros (i0 & key & j & mv & Hn & Hm & Hv & Hver & Hle) Hk Hal.
-    pose proof (catch_up_round P pay s i0 key j mv k Hm Hv Hver Hn Hk Hal). lia.
+    pose proof (catch_up_round P pay fetch s i0 key j mv k Hm Hv Hver Hn Hk Hal). lia.
   Qed.
 
   (* Catching up in two rounds: a node that is running at the end of a round in which its view
@@ -356,8 +357,8 @@ Section Announce.
      view. *)
   Theorem catch_up_two_rounds s h k :
     preach P s -> honestb P h = true -> honestb P k = true ->
-    let s1 := sync_round P pay s in
-    let s2 := sync_round P pay s1 in
+    let s1 := sync_round P pay fetch s in
+    let s2 := sync_round P pay fetch s1 in
     n_alive (g_node s1 h) = true ->
     r_view (n_live (g_node s1 h)) = r_view (n_live (g_node (revive_all P s) h)) ->
     cert_headroom s1 h ->
@@ -367,7 +368,7 @@ Section Announce.
     intros Hr Hh Hk s1 s2 Hal Hst Hhr Halk.
     assert (Hr1 : preach P s1) by (apply sync_round_reach; exact Hr).
     assert (Hr2 : preach P s2) by (apply sync_round_reach; exact Hr1).
-    pose proof (round_retransmits P pay s h Hr Hh Hal Hst) as Hre.
+    pose proof (round_retransmits P pay fetch s h Hr Hh Hal Hst) as Hre.
     destruct (retransmitted_announces s1 h Hr1 Hh Hal Hre Hhr) as [E0|Ha].
     - rewrite E0. destruct (preach_LI P s2 Hr2 k) as [_ HI]. destruct (HI Halk) as (_ & _ & _ & Hv & _). exact Hv.
     - exact (announced_catch_up s1 _ k Ha Hk Halk).
